@@ -224,11 +224,17 @@ func TestDrv_C01(t *testing.T) {
 	// linear pacers: positive slopes, gentle negative ones (|slope| <= 0.004 rate^2, rate stays above 30% of its start)
 	for _, start := range []int{1, 10, 100, 10000} {
 		for _, slope := range []float64{0, 0.1, 1, 10, 1000, -0.004, -0.001} {
-			s := slope
-			if slope < 0 {
-				s = slope * float64(start) * float64(start)
+			for _, per := range []time.Duration{time.Second, 100 * time.Millisecond, 10 * time.Millisecond, time.Minute} {
+				if per != time.Second && start == 10000 {
+					continue // keep the rate below one hit per microsecond
+				}
+				b := float64(start) / per.Seconds() // hits per second at t = 0
+				s := slope
+				if slope < 0 {
+					s = slope * b * b
+				}
+				loops = append(loops, linearLoop(start, per, s))
 			}
-			loops = append(loops, linearLoop(start, time.Second, s))
 		}
 	}
 	loops = append(loops, linearLoop(0, time.Second, 1), linearLoop(5, 0, 1), linearLoop(-1, time.Second, 1), linearLoop(1, -time.Second, 1))
